@@ -1,10 +1,10 @@
 \* C06, exhaustive: forks above the finalized block (any content), detector, restart at any step
 CONSTANTS
-  N = 4
+  N = 3
   Chunks = {1,2}
   TipTags = {"latest"}
   BufCap = 1
-  MaxForks = 1
+  MaxForks = 2
   MaxFails = 0
   MaxPFails = 0
   MaxRestarts = 1
@@ -12,6 +12,7 @@ CONSTANTS
   RetryLimit = 5
   AtomicRemove = TRUE
   Contents = {0,1}
+  FinLag = 0
   NoIdle = FALSE
   SimDepth = 0
 INIT Init
